@@ -158,6 +158,21 @@ def alloc_ops(ctx, keys, grid, vals, present):
         return (lambda: O.outcome(lambda: ctx.cls().__setstate__(st))), None
     ops.append(('setstate', 'setstate', setstate))
 
+    def setstate_over(t):
+        # __setstate__ on a container that already owns vectors, with a state that does not fit
+        # them.  A failed load may leave the container EMPTY (the old contents are released before
+        # the new ones are taken; that is what a ghost looks like) - but sound, and never pointing
+        # at freed memory.
+        big = ctx.cls()
+        for i, k in enumerate(grid):
+            if ismap:
+                big[k] = vals[i % 2]
+            else:
+                big.add(k)
+        st = big.__getstate__()
+        return (lambda: O.outcome(lambda: t.__setstate__(st))), 'allow-empty'
+    ops.append(('setstate-over', 'setstate', setstate_over))
+
     def pickled(t):
         data = pickle.dumps(t, 2)
         return (lambda: O.outcome(lambda: len(pickle.loads(data)))), None
@@ -244,6 +259,9 @@ def job(fam, kind, sizes, n, tier):
                     continue
                 completed = O.contents(ctx, t)
                 allowed = [before, completed]
+                if multi == 'allow-empty':
+                    allowed.append([])
+                    multi = None
                 if multi is not None:
                     items = multi[2]
                     for j in range(len(items)):
